@@ -52,7 +52,7 @@ def main(argv):
     patch = os.path.join(sdir, "patch.diff")
     tmp = tempfile.mkdtemp(prefix="yaep-seed-")
     rebased = None
-    meta = {"seed": sid, "properties": props, "ran": []}
+    meta = {"seed": sid, "properties": props, "ran": [], "applies": True}
     try:
         # scratch copies
         for variant in ("orig", "patched"):
